@@ -85,6 +85,9 @@ def ob_decrypt(L, idlen):
             ctt = [dom.term(b) for b in ct]; idt = [dom.term(b) for b in idb]
             C1 = W.FROMB(z3.Concat(*ctt[1:65]))
             discharge(stats, hy, W.ONCURVE(C1), "Ok(m) => C1 was checked to be on the curve")
+            P9_ = z3.BitVecVal(0xB640000002A3A6F1D603AB4FF58EC74521F2934B1A7AEEDBE56F9B27E351457D, 256)
+            discharge(stats, hy, z3.And(ctt[0] == 4, z3.ULT(z3.Concat(*ctt[1:33]), P9_), z3.ULT(z3.Concat(*ctt[33:65]), P9_)),
+                      "Ok(m) => C1 is the canonical encoding 04 || x || y with x, y < p (another tag byte or a coordinate + p is a modified C1)")
             w = split_terms(W.GBYTES(W.PAIR(de, C1)), 384)
             K = kdf_spec(h, ctt[1:65] + w + idt, mlen + 32)
             m = [dom.term(b) for b in r.f[0].f]
